@@ -30,14 +30,15 @@ def _history(part, l):
 
 
 def _sig(clause, r):
-    if clause in ("StepAmount", "StepOffset"):
-        return "C19 %s off=%s" % (clause, r["offc"] if clause == "StepAmount" else r["offc"].lstrip("+-"))
+    """structural signature: failing clause + the input class that matters for it"""
+    if clause == "StepAmount":
+        return "C19 StepAmount off=%s" % ("min" if r["offc"] == "min" else "other")
+    if clause == "StepOffset":
+        return "C19 StepOffset off=%s" % r["offc"].lstrip("+-")
     if clause == "StepWeight":
-        return "C19 %s w%s" % (clause, r["wc"])
-    if clause in ("PositiveDuration", "FiniteFrequency", "StepWait"):
-        return "C19 %s adv=%s" % (clause, r["advc"])
-    if clause == "SlewBound":
-        return "C19 %s adv=%s off=%s" % (clause, "sat" if r["advc"] == "sat" else "ord", r["offc"].lstrip("+-"))
+        return "C19 StepWeight w%s" % r["wc"]
+    if clause in ("PositiveDuration", "SlewBound"):
+        return "C19 %s adv=%s" % (clause, "sat" if r["advc"] == "sat" else "ord")
     return "C19 %s" % clause
 
 
@@ -60,9 +61,16 @@ def _run_trace(ctx, cfg, part, name):
     vlib.write_ndjson(pp, part)
     r = ctx.tlc("PllTrace", cfg, workers=1, timeout=900, files={"trace.ndjson": pp}, tag="trace:" + cfg, heap="4g")
     res = []
-    for marker in ("MBAD", "SBAD"):
-        rep = vlib.Ctx.emitted(r["out"], marker=marker)
-        res.append(sorted({(int(e[0]), e[1]) for lst in rep for e in lst}) if rep else None)
+    for bad, done in (("MBAD", "MDONE"), ("SBAD", "SDONE")):
+        total = vlib.Ctx.emitted(r["out"], marker=done)
+        if not total:
+            res.append(None)
+            continue
+        pairs = sorted({(int(e["l"]), c) for e in vlib.Ctx.emitted(r["out"], marker=bad) for c in e["c"]})
+        if total[0]["events"] != len(part) or total[0]["n"] != len(pairs):
+            raise vlib.Inconclusive("trace validation %s: report inconsistent (%s, %d pairs, %d events)"
+                                    % (cfg, total[0], len(pairs), len(part)))
+        res.append(pairs)
     want = {"PllTrace_mon.cfg": (0,), "PllTrace_strict.cfg": (1,), "PllTrace_both.cfg": (0, 1)}[cfg]
     if any(res[i] is None for i in want):
         tail = "\n".join(r["out"].splitlines()[-40:])
@@ -70,40 +78,59 @@ def _run_trace(ctx, cfg, part, name):
     return res
 
 
-def _selftest(ctx, recs):
-    """corrupted-field controls: the monitor must reject a trace in which one
-    recorded call was falsified (a binding that cannot fail proves nothing)"""
-    hists, cur = [], []
-    for r in recs:
-        if r["ev"] == "reset" and cur:
-            hists.append(cur)
-            cur = []
-        cur.append(r)
-    hists.append(cur)
+def _act(k, **kw):
+    a = dict(k=k, x=0, x_eq=False, p=0, p_small=False, slew_within_bound=False, d=0, d_whole=False, d_pos=False, ffin=True)
+    a.update(kw)
+    return a
 
-    def first(pred):
-        for h in hists:
-            for i, r in enumerate(h):
-                if r["ev"] == "upd" and len(r["acts"]) == 1 and pred(r["acts"][0]):
-                    return h, i
-        # generator output always contains steps and adjustments; otherwise coverage is lost
-        raise vlib.Inconclusive("self-test: no recorded history contains the call to falsify")
 
-    tests = []
-    h, i = first(lambda a: a["k"] == "adjust" and a["d_pos"])
-    c = copy.deepcopy(h)
-    c[i]["acts"][0]["d_pos"] = False
-    tests.append(("PositiveDuration", i + 1, c))
-    h, i = first(lambda a: a["k"] == "step" and a["x_eq"] and a["x"] != 0)
-    c = copy.deepcopy(h)
-    c[i]["acts"][0]["x"] = -c[i]["acts"][0]["x"]
-    tests.append(("StepAmount", len(tests[0][2]) + i + 1, c))
-    both = tests[0][2] + tests[1][2]
-    bad, _ = _run_trace(ctx, "PllTrace_mon.cfg", both, "selftest.ndjson")
-    for clause, l, _ in tests:
-        if (l, clause) not in bad:
-            raise vlib.Inconclusive("self-test: monitor did not reject a falsified %s at event %d (got %s)" % (clause, l, bad[:5]))
-    return len(tests)
+def _synthetic(h):
+    """a hand-written history that satisfies every clause: start-up, step of
+    +large after 2 s + 1 ms, restart, 2 s and 6 s waits, one saturated slew"""
+    def u(i, adv, off, w, now, cep, cep2, mode, acts):
+        return dict(ev="upd", h=h, i=i, c0=0, adv=adv, sat=False, bump=False, off=off, w=w, now_t=now, now_e=0,
+                    cep=cep, cep2=cep2, nlog=1, mode=mode, acts=acts, panic=False, emb="synthetic",
+                    offc="+large" if off else "0", wc="3..50", advc="-", exp_ok=True)
+    return [
+        dict(ev="reset", h=h, i=0, c0=0, adv=0, sat=False, bump=False, off=0, w=0, now_t=0, now_e=0, cep=0, cep2=0,
+             nlog=0, mode=0, acts=[], panic=False, emb="synthetic", offc="", wc="", advc="", exp_ok=True),
+        u(1, 0, 10, 4, 0, 0, 0, 1, []),
+        u(2, 2001, 10, 4, 2001, 0, 1, 2, [_act("step", x=10, x_eq=True)]),
+        u(3, 0, 10, 4, 2001, 1, 1, 1, []),
+        u(4, 2001, 0, 4, 4002, 1, 1, 2, []),
+        u(5, 6001, 0, 4, 10003, 1, 1, 3, []),
+        u(6, 1000, 10, 4, 11003, 1, 1, 3, [_act("adjust", p=500000, p_small=True, slew_within_bound=True, d=1, d_whole=True, d_pos=True)]),
+    ]
+
+
+def _selftest(ctx):
+    """corrupted-field controls: the monitor must accept a hand-written correct
+    history and reject each copy of it in which one recorded field was
+    falsified (a binding that cannot fail proves nothing)"""
+    falsify = [
+        ("PositiveDuration", 6, lambda r: r["acts"][0].update(d_pos=False, d=0)),
+        ("StepAmount", 2, lambda r: r["acts"][0].update(x=-10)),
+        ("SlewBound", 6, lambda r: r["acts"][0].update(p=500001)),
+        ("StepWait", 2, lambda r: r.update(adv=2000, now_t=2000)),
+        ("StepWeight", 2, lambda r: r.update(w=3)),
+        ("FiniteFrequency", 6, lambda r: r["acts"][0].update(ffin=False)),
+        ("EpochRestarts", 3, lambda r: r.update(acts=[_act("adjust", p=0, p_small=True, slew_within_bound=True, d=1, d_whole=True, d_pos=True)])),
+        ("TrackingOnlySlews", 6, lambda r: r.update(acts=[_act("step", x=10, x_eq=True)], cep2=2)),
+    ]
+    trace = _synthetic(1)
+    want = set()
+    for k, (clause, i, f) in enumerate(falsify):
+        hst = _synthetic(k + 2)
+        f(hst[i])
+        want.add((len(trace) + i + 1, clause))
+        trace += hst
+    bad, _ = _run_trace(ctx, "PllTrace_mon.cfg", trace, "selftest.ndjson")
+    got = set(bad)
+    if any(l <= 7 for l, _ in got):
+        raise vlib.Inconclusive("self-test: monitor rejects the correct hand-written history: %s" % sorted(got)[:5])
+    if not want <= got:
+        raise vlib.Inconclusive("self-test: monitor did not reject falsified fields: %s" % sorted(want - got))
+    return len(falsify)
 
 
 def run(ctx):
@@ -128,7 +155,7 @@ def run(ctx):
     exh_cases = ctx.emitted(g["out"])
     if len(exh_cases) != g["out"].count('<<"CASE"'):
         raise vlib.Inconclusive("generator output garbled: %d of %d CASE lines parsed" % (len(exh_cases), g["out"].count('<<"CASE"')))
-    nsim = 1500 if q else 20000
+    nsim = 1000 if q else 5000
     depth = (12 if q else 24) + 1
     s = ctx.tlc("PllMC", "Pll_sim.cfg" if q else "Pll_simdeep.cfg", workers=1, timeout=900,
                 simulate="num=%d" % nsim, depth=depth, tag="sim")
@@ -154,7 +181,7 @@ def run(ctx):
     if any(x["nlog"] != 1 for x in upd) and all(x["nlog"] != 1 for x in upd):
         raise vlib.Inconclusive("the Pll no longer logs one 'PLL iteration' record per update: the mode projection is lost")
     # ---- 4. code -> spec
-    ntests = _selftest(ctx, recs)
+    ntests = _selftest(ctx)
     nval, found, counts, dseen = 0, {}, {}, set()
     for part in _chunks(recs, 60000):
         hist_ids = {x["h"] for x in part}
@@ -171,11 +198,6 @@ def run(ctx):
             badh.add(rec_["h"])
             if sig not in found:
                 found[sig] = (clause, rec_, hist)
-        # histories counted as validated: none of their updates falls into the
-        # input class of a failing clause (PllTrace keeps a bounded list per clause)
-        for l, clause in bad:
-            cls = _sig(clause, part[l - 1])
-            badh |= {x["h"] for x in part if x["ev"] == "upd" and _sig(clause, x) == cls}
         nval += len(hist_ids - badh)
         for l, clause in sb:
             rec_ = part[l - 1]
